@@ -1023,6 +1023,66 @@ def rule_l(ctx: Context, R: Reporter):
     R.floor("C08.l", "sets of key names defined at module level", n_sets, 3)
 
 
+def rule_m(ctx: Context, R: Reporter):
+    """C08.m  the import of a serialized state copies the values it is given and nothing else: inside the state class's
+    import methods (and the helpers of the class they hand the values to) no shape-, dtype- or value-changing operation
+    is applied to the imported data (`squeeze`, `ravel`, `reshape`, `astype`, `round`, `item`, `atleast_*`, a dtype=
+    cast ...).  `np.squeeze` looks harmless for "array-wrapped scalars" but also drops the parameter axis of the
+    particle arrays of a one-dimensional problem: the restored state is no longer what was saved."""
+    CHANGERS = {"squeeze", "ravel", "flatten", "reshape", "astype", "round", "around", "rint", "item", "tolist", "atleast_1d", "atleast_2d", "atleast_3d", "transpose", "swapaxes",
+                "clip", "nan_to_num", "sort", "unique", "float32", "float16", "int32", "int64", "int"}
+    sc = state_class(ctx)
+    roots = list(mutating_imports(ctx).values()) + [m for m in sc.methods.values() if m.is_classmethod and any(p in m.params for p in ("state_dict", "d", "data"))]
+    seen = set()
+    todo = [(m, {p for p in m.params if p not in ("self", "cls", "copy")}) for m in roots]
+    n = 0
+    while todo:
+        m, tainted0 = todo.pop()
+        if (m.qualname, tuple(sorted(tainted0))) in seen:
+            continue
+        seen.add((m.qualname, tuple(sorted(tainted0))))
+        n += 1
+        tainted = set(tainted0)
+        nodes = list(walk_no_nested(m.node))
+        for _ in range(6):
+            before = len(tainted)
+            for x in nodes:
+                tg, v = None, None
+                if isinstance(x, ast.Assign):
+                    tg, v = x.targets, x.value
+                elif isinstance(x, (ast.For, ast.comprehension)):
+                    tg, v = [x.target], x.iter
+                if tg is not None and any(isinstance(y, ast.Name) and y.id in tainted for y in ast.walk(v)):
+                    for t in tg:
+                        for y in ast.walk(t):
+                            if isinstance(y, ast.Name) and isinstance(y.ctx, ast.Store):
+                                tainted.add(y.id)
+            if len(tainted) == before:
+                break
+        for c in calls_in(m.node):
+            nm = dotted(c.func).split(".")[-1]
+            operands = list(c.args) + ([c.func.value] if isinstance(c.func, ast.Attribute) else [])
+            touches = any(isinstance(y, ast.Name) and y.id in tainted for a in operands for y in ast.walk(a))
+            if not touches:
+                continue
+            cast = any(k.arg == "dtype" for k in c.keywords) and nm in ("array", "asarray", "asanyarray")
+            if nm in CHANGERS or cast:
+                R.check("C08.m", "imported values are copied, not converted", False, m, c,
+                        msg=f"{m.short}: `{unparse(c)[:60]}` changes the shape / dtype / value of data imported from a serialized state: the restored state differs from the saved one "
+                            f"(np.squeeze, for one, drops the parameter axis of u and x when n_dim = 1, and resuming from such a state fails or mis-shapes every later batch)",
+                        key=f"import-converted:{m.short}:{nm}")
+            # follow the imported values into helpers of the class
+            for t in ctx.res.call_targets(m, c):
+                if isinstance(t, FuncInfo) and t.cls is sc and t is not m:
+                    ps = [p for p in t.params if p not in ("self", "cls")]
+                    tp = {ps[i] for i, a in enumerate(c.args) if i < len(ps) and any(isinstance(y, ast.Name) and y.id in tainted for y in ast.walk(a))}
+                    tp |= {k.arg for k in c.keywords if k.arg in ps and any(isinstance(y, ast.Name) and y.id in tainted for y in ast.walk(k.value))}
+                    if tp:
+                        todo.append((t, tp))
+    R.check("C08.m", "import path of the state class scanned for conversions", True, None, None, key="import-converted-scan")
+    R.floor("C08.m", "import methods / helpers scanned", n, 2)
+
+
 def rule_g(ctx: Context, R: Reporter):
     """The object pickled into the checkpoint is the live object itself under a
     pool-less configuration swap (restored afterwards); never a shallow copy,
@@ -1193,9 +1253,45 @@ def rule_i(ctx: Context, R: Reporter):
         for d in flow.defs_at.get(ln.id, []):
             sites.append((fi, d.name, "loader"))
     R.floor("C08.i", "checkpoint writer / loader payload variables", len(sites), 2)
+    # the payload handed on to a helper of the library (`self._upgrade(d)`) is the payload there too
+    k_ = 0
+    while k_ < len(sites) and k_ < 12:
+        (fi0, var0, role0) = sites[k_]
+        k_ += 1
+        for c in calls_in(fi0.node):
+            tg = [t for t in ctx.res.call_targets(fi0, c) if isinstance(t, FuncInfo) and t not in imports.values() and t is not exp]
+            for t in tg:
+                ps = [p for p in t.params if p not in ("self", "cls")]
+                for i_, a_ in enumerate(c.args):
+                    if isinstance(a_, ast.Name) and a_.id == var0 and i_ < len(ps) and (t, ps[i_], role0) not in sites and t.cls is not state_class(ctx):
+                        sites.append((t, ps[i_], role0))
     for (fi, var, role) in sites:
         n += 1
         bad = []
+        # local names bound to an exported section of the payload (`history = d.get("_history")`, `h = d["_history"]`)
+        section_alias = {}
+        for x in walk_no_nested(fi.node):
+            if isinstance(x, ast.Assign) and len(x.targets) == 1 and isinstance(x.targets[0], ast.Name):
+                v_ = x.value
+                key_ = None
+                if isinstance(v_, ast.Subscript) and isinstance(v_.value, ast.Name) and v_.value.id == var:
+                    key_ = v_.slice
+                elif isinstance(v_, ast.Call) and isinstance(v_.func, ast.Attribute) and v_.func.attr == "get" and isinstance(v_.func.value, ast.Name) and v_.func.value.id == var and v_.args:
+                    key_ = v_.args[0]
+                if key_ is not None:
+                    ks = _keys_of_store(fi, key_)
+                    if ks is None or ks & exported:
+                        section_alias[x.targets[0].id] = sorted(ks & exported) if ks else "(computed)"
+        for x in walk_no_nested(fi.node):
+            if section_alias and isinstance(x, ast.Subscript) and isinstance(x.ctx, (ast.Store, ast.Del)):
+                b = x
+                while isinstance(b, ast.Subscript):
+                    b = b.value
+                if isinstance(b, ast.Name) and b.id in section_alias:
+                    bad.append((x, f"an entry of section {section_alias[b.id]} (through the local `{b.id}`)"))
+            if section_alias and isinstance(x, ast.Call) and isinstance(x.func, ast.Attribute) and x.func.attr in ("pop", "update", "clear", "popitem", "setdefault") \
+                    and isinstance(x.func.value, ast.Name) and x.func.value.id in section_alias:
+                bad.append((x, f"section {section_alias[x.func.value.id]} through .{x.func.attr}()"))
         for x in walk_no_nested(fi.node):
             if isinstance(x, ast.Subscript) and isinstance(x.value, ast.Name) and x.value.id == var and isinstance(x.ctx, (ast.Store, ast.Del)):
                 ks = _keys_of_store(fi, x.slice)
@@ -1277,6 +1373,7 @@ def run(ctx: Context, R: Reporter):
     R.guard(rule_j, ctx, R)
     R.guard(rule_k, ctx, R)
     R.guard(rule_l, ctx, R)
+    R.guard(rule_m, ctx, R)
 
 
 def variants():
@@ -1285,6 +1382,9 @@ def variants():
     core = "tempest/core.py"
     sm = "tempest/state_manager.py"
     return [
+        Variant("i-loader-rewrites-history-through-alias", "bad", insert_before(core, "SamplerCore.load_sampler_state", "self.state.update_from_dict(d)", "hist = d.get('_history')\nif hist and 'logz' in hist:\n    hist['logz'] = [float(v) for v in hist['logz']]"), ["C08.i"], quick=True),
+        Variant("m-import-squeezes-arrays", "bad", replace_expr(sm, "StateManager.update_from_dict", "self._ensure_copy(value)", "self._ensure_copy(np.squeeze(value) if isinstance(value, np.ndarray) else value)"), ["C08.m"], quick=True),
+        Variant("m-benign-import-through-local", "benign", replace_stmt(sm, "StateManager.update_from_dict", "self._current[key] = self._ensure_copy(value)", "copied = self._ensure_copy(value)\nself._current[key] = copied")),
         Variant("l-history-columns-in-set-order", "bad", chain(insert_before_function(sm, "StateManager", "SCALAR_KEYS = tuple(HISTORY_STATE_KEYS - frozenset({'u', 'x', 'logl', 'blobs'}))\n"),
                                                                  insert_after(core, "SamplerCore.save_sampler_state", "d = self.state.to_dict()", "d['_scalars'] = [d['_history'][k] for k in __import__('tempest').state_manager.SCALAR_KEYS]")), ["C08.l"], quick=True),
         Variant("l-benign-history-columns-sorted", "benign", insert_before_function(sm, "StateManager", "SCALAR_KEYS = tuple(sorted(HISTORY_STATE_KEYS - frozenset({'u', 'x', 'logl', 'blobs'})))\n")),
